@@ -300,7 +300,12 @@ type c04Fixture struct {
 }
 
 func newC04Fixture(rt *rapid.T) *c04Fixture {
-	cfg := sessCfg{Driver: "memory", Price: big.NewInt(1000), Interval: time.Minute}
+	// the pool's configuration must not matter to verification: minimum balance, request cap, driver
+	cfg := sessCfg{Driver: rapid.SampledFrom([]string{"memory", "memory", "memory", "badger"}).Draw(rt, "driver"), Price: big.NewInt(1000), Interval: time.Minute}
+	cfg.MaxRequestHosts = rapid.SampledFrom([]int{0, 0, 1, 2}).Draw(rt, "maxRequestHosts")
+	if rapid.IntRange(0, 3).Draw(rt, "minBalanceSet") == 0 {
+		cfg.Min = big.NewInt(-1000000)
+	}
 	s := newSession(rt, cfg, 5)
 	f := &c04Fixture{s: s, host: 0, client: 1}
 	hc := s.openConn(0, "")
